@@ -18,7 +18,8 @@ def main():
     meta = mod.META
     rc = runner.run_property(a.prop, a.tier, modname, level=meta.get("level", "other"),
                              explanation=meta["explanation"], assumptions=meta.get("assumptions"),
-                             outside=meta.get("outside"), replay_path=a.replay, only=a.only)
+                             outside=meta.get("outside"), replay_path=a.replay, only=a.only,
+                             exhaustive=meta.get("exhaustive", False))
     sys.stdout.flush()
     os._exit(rc)
 
